@@ -153,6 +153,9 @@ func (r *MetricRegistry) RegisterDistribution(
 		ID = strings.TrimPrefix(ID, ".")
 	}
 
+	r.mu.Lock()
+	defer r.mu.Unlock()
+
 	// only add once
 	if l, ok := r.registeredListeners[ID]; ok {
 		return l
@@ -180,6 +183,9 @@ func (r *MetricRegistry) RegisterTiming(
 		ID = strings.TrimPrefix(ID, ".")
 	}
 
+	r.mu.Lock()
+	defer r.mu.Unlock()
+
 	// only add once
 	if l, ok := r.registeredListeners[ID]; ok {
 		return l
@@ -205,6 +211,9 @@ func (r *MetricRegistry) RegisterCount(
 	if strings.HasPrefix(ID, ".") {
 		ID = strings.TrimPrefix(ID, ".")
 	}
+
+	r.mu.Lock()
+	defer r.mu.Unlock()
 
 	// only add once
 	if l, ok := r.registeredListeners[ID]; ok {
